@@ -95,6 +95,66 @@ def run_one(args):
     return k, src, p.returncode, p.stdout, p.stderr, executed
 
 
+def run_dir(args):
+    """A directory of several test files run with one `incan test .`, `rounds` times in the same directory: round r writes
+    files[r] (dict file name -> funcs) over what is there. Returns per round (rc, stdout, stderr)."""
+    k, rounds, root = args
+    d = os.path.join(root, f"d{k}")
+    shutil.rmtree(d, ignore_errors=True)
+    os.makedirs(d)
+    env = dict(pipe.ENV_BASE)
+    env["CARGO_TARGET_DIR"] = os.path.join(common.BUILD, f"t16_{k % common.NCPU}")
+    env["RUST_LOG"] = "off"
+    import fcntl, time
+
+    os.makedirs(env["CARGO_TARGET_DIR"], exist_ok=True)
+    outs = []
+    for files in rounds:
+        for fn, funcs in files.items():
+            open(os.path.join(d, fn), "w", encoding="utf-8").write(make_file(funcs))
+        with open(os.path.join(env["CARGO_TARGET_DIR"], ".lock"), "w") as lk:
+            fcntl.flock(lk, fcntl.LOCK_EX)
+            p = subprocess.run([common.INCAN, "--no-banner", "--color", "never", "test", "."], cwd=d, env=env, capture_output=True, text=True, timeout=1800)
+        outs.append((p.returncode, p.stdout, p.stderr))
+    shutil.rmtree(d, ignore_errors=True)
+    return k, outs
+
+
+def parse_file_verdicts(stdout):
+    out = []
+    for line in stdout.splitlines():
+        m = re.match(r"(\S*?)::(\w+)\s+(PASSED|FAILED|SKIPPED|XFAIL|XPASS)\b", line.strip())
+        if m:
+            out.append((os.path.basename(m.group(1)), m.group(2), m.group(3)))
+    return out
+
+
+def dir_scenarios(tier):
+    """Directories whose files declare a test function of the SAME name with different outcomes (the runner keeps per-test
+    state keyed by names), and directories run twice with a file edited in between."""
+    kinds = [("pass", "none"), ("fail_eq", "none"), ("pass", "xfail"), ("fail_eq", "xfail"), ("fail_eq", "skip"), ("panic_index", "none")]
+    pairs = list(itertools.product(kinds, kinds))
+    if tier != "thorough":
+        pairs = [(("pass", "none"), ("fail_eq", "none")), (("fail_eq", "none"), ("pass", "none")), (("pass", "none"), ("pass", "xfail")), (("fail_eq", "xfail"), ("fail_eq", "none")),
+                 (("fail_eq", "skip"), ("pass", "none")), (("panic_index", "none"), ("pass", "none"))]
+    out = []
+    for (b1, m1), (b2, m2) in pairs:
+        if (b1, m1) == (b2, m2):
+            continue
+        files = {"test_a_codec.incn": [("test_same", b1, m1), ("test_only_a", "pass", "none")], "test_b_parser.incn": [("test_only_b", "pass", "none"), ("test_same", b2, m2)]}
+        out.append(("same-name-in-two-files", [files]))
+    for (b1, m1), (b2, m2) in pairs[: (None if tier == "thorough" else 3)]:
+        if (b1, m1) == (b2, m2):
+            continue
+        out.append(("file-edited-between-runs", [{"test_edit.incn": [("test_same", b1, m1), ("test_other", "pass", "none")]}, {"test_edit.incn": [("test_same", b2, m2), ("test_other", "pass", "none")]}]))
+    if tier == "thorough":
+        for (b1, m1), (b2, m2), (b3, m3) in itertools.product(kinds[:4], repeat=3):
+            if len({(b1, m1), (b2, m2), (b3, m3)}) < 2:
+                continue
+            out.append(("same-name-in-three-files", [{"test_a.incn": [("test_same", b1, m1)], "test_b.incn": [("test_same", b2, m2)], "test_c.incn": [("test_same", b3, m3)]}]))
+    return out
+
+
 def parse_verdicts(stdout):
     out = []
     for line in stdout.splitlines():
@@ -217,6 +277,41 @@ def run(tier):
             sig_ok.add((tuple(flags), tuple((b, m) for _, b, m in funcs)))
         for kind, detail in probs:
             out.fail(f"{kind}|{tag}" if len(funcs) > 2 else f"{kind}|single", {**case, "detail": detail})
+    # ---- directories of several files / repeated runs -----------------------------------------------------------------
+    dsc = dir_scenarios(tier)
+    with ThreadPool(common.NCPU) as pool:
+        dres = pool.map(run_dir, [(k, rounds, root) for k, (kind, rounds) in enumerate(dsc)])
+    for k, outs in dres:
+        kind, rounds = dsc[k]
+        state = {}
+        for rno, (files, (rc, stdout, stderr)) in enumerate(zip(rounds, outs)):
+            state.update(files)
+            want, want_fail = [], False
+            for fn, funcs in sorted(state.items()):
+                vs, failed, _ = model(funcs, [])
+                want += [(fn, n, v) for n, v in vs]
+                want_fail = want_fail or failed
+            got = parse_file_verdicts(stdout)
+            n_fn += len(want)
+            shape = tuple((fn, tuple((b, m) for _, b, m in funcs)) for fn, funcs in sorted(state.items()))
+            case = {"kind": kind, "round": rno, "files": {fn: make_file(funcs) for fn, funcs in state.items()}, "rounds": [{fn: make_file(funcs) for fn, funcs in f.items()} for f in rounds], "stdout": stdout[-2500:], "exit": rc, "expected_verdicts": want}
+            probs = []
+            if sorted(got) != sorted(want):
+                wrong = sorted(set(want) - set(got))
+                probs.append((f"wrong-or-missing-verdict:{wrong[0][2] if wrong else 'extra'}", f"expected {sorted(want)}, reported {sorted(got)}"))
+            if (rc != 0) != want_fail:
+                probs.append((f"exit-status:{'zero-although-failure' if want_fail else 'nonzero-although-all-ok'}", f"exit {rc}"))
+            summ = parse_summary(stdout)
+            cnt = {}
+            for _, _, v in want:
+                w = {"PASSED": "passed", "FAILED": "failed", "SKIPPED": "skipped", "XFAIL": "xfailed", "XPASS": "xpassed"}[v]
+                cnt[w] = cnt.get(w, 0) + 1
+            if summ is None or any(summ.get(w, 0) != c for w, c in cnt.items()) or any(w not in cnt and c for w, c in summ.items()):
+                probs.append(("summary-counts-differ-from-the-truth", f"summary {summ} vs {cnt}"))
+            if not probs:
+                sig_ok.add((kind, rno, shape))
+            for pk, detail in probs:
+                out.fail(f"{pk}|{kind}", {**case, "detail": detail})
     shutil.rmtree(root, ignore_errors=True)
     cov = {
         "evaluations": n_fn,
@@ -228,6 +323,7 @@ def run(tier):
         "samples": [{"flags": f, "functions": [list(x) for x in fs][:4]} for fs, f in common.pick_samples(sc)],
         "exhaustive": True,
         "scenarios": len(sc),
+        "directory_scenarios": len(dsc),
     }
     return out.finish(
         cov,
@@ -248,9 +344,19 @@ def replay(path):
     d = os.path.join(root, "r0")
     shutil.rmtree(root, ignore_errors=True)
     os.makedirs(d)
-    open(os.path.join(d, "test_sample.incn"), "w", encoding="utf-8").write(c["test_file"])
     env = dict(pipe.ENV_BASE)
     env["CARGO_TARGET_DIR"] = os.path.join(common.BUILD, "t16_0")
+    if "rounds" in c:
+        for rno, files in enumerate(c["rounds"]):
+            for fn, text in files.items():
+                open(os.path.join(d, fn), "w", encoding="utf-8").write(text)
+            p = subprocess.run([common.INCAN, "--no-banner", "--color", "never", "test", "."], cwd=d, env=env, capture_output=True, text=True)
+            print(f"--- round {rno}: files {sorted(files)} exit {p.returncode}")
+            print(p.stdout)
+        print("expected verdicts (round %d):" % c["round"], c["expected_verdicts"])
+        shutil.rmtree(root, ignore_errors=True)
+        return 1
+    open(os.path.join(d, "test_sample.incn"), "w", encoding="utf-8").write(c["test_file"])
     p = subprocess.run([common.INCAN, "--no-banner", "--color", "never", "test"] + list(c["flags"]) + ["."], cwd=d, env=env, capture_output=True, text=True)
     print(c["test_file"])
     print("flags:", c["flags"], "exit:", p.returncode)
